@@ -102,10 +102,12 @@ func (x *Exec) frameRegions() []region {
 			x.frame = append(x.frame, region{"map", typeKey(v.T.Underlying()), 0, 0, v.one(), m, false})
 		case strings.HasPrefix(m, "ghost "):
 		case strings.HasPrefix(m, "sink "):
-			// what sits behind an interface parameter is unknown at entry: any bytes.Buffer
-			for _, h := range x.anyRegions("bytes.Buffer", x.fn.Pkg) {
-				x.frame = append(x.frame, region{kind: "H", base: typeKey(h.base), lo: h.lo, hi: h.hi, text: m, any: true})
-				x.frame = append(x.frame, region{kind: "M", base: typeKey(h.base), lo: h.lo, hi: h.hi, text: m, any: true})
+			// what sits behind an interface parameter is unknown at entry: any bytes.Buffer / bytes.Reader
+			for _, tn := range []string{"bytes.Buffer", "bytes.Reader"} {
+				for _, h := range x.anyRegions(tn, x.fn.Pkg) {
+					x.frame = append(x.frame, region{kind: "H", base: typeKey(h.base), lo: h.lo, hi: h.hi, text: m, any: true})
+					x.frame = append(x.frame, region{kind: "M", base: typeKey(h.base), lo: h.lo, hi: h.hi, text: m, any: true})
+				}
 			}
 		case strings.HasPrefix(m, "any "):
 			for _, h := range x.anyRegions(m[4:], x.fn.Pkg) {
@@ -217,11 +219,14 @@ func (x *Exec) frameCall(st *State, ins ssa.Instruction, c *ssa.CallCommon, ctr 
 			}
 			ok = x.allowedWrite(st, kind, typeKey(p.Base), p.Off, p.Off+len(flatten(p.Sub)), p.Obj)
 		case strings.HasPrefix(m, "any ") || strings.HasPrefix(m, "sink "):
+			homes := []anyHome{}
 			if strings.HasPrefix(m, "sink ") {
-				m = "any bytes.Buffer"
+				homes = append(x.anyRegions("bytes.Buffer", env.pkg), x.anyRegions("bytes.Reader", env.pkg)...)
+			} else {
+				homes = x.anyRegions(m[4:], env.pkg)
 			}
 			ok = tTrue
-			for _, h := range x.anyRegions(m[4:], env.pkg) {
+			for _, h := range homes {
 				covered := false
 				for _, r := range x.frameRegions() {
 					if r.any && r.kind == "H" && r.base == typeKey(h.base) && r.lo <= h.lo && h.hi <= r.hi {
